@@ -192,6 +192,14 @@ def gen_files(tier, rng, impl_bin, env):
 KNOWN_DYN = "C09-bsdyn-datasize"
 
 
+def finding_status(fid):
+    """'known' (recorded, tolerated), 'fixed' (repaired: its return is a violation) or None"""
+    for k in vlib.load_known():
+        if k.get("id") == fid:
+            return k.get("status")
+    return None
+
+
 def check_case(rep, case, iline, mline, stats):
     """returns (mismatch or None, list of spec failures)"""
     I = iline[2:].split(" | ")
@@ -232,7 +240,11 @@ def check_case(rep, case, iline, mline, stats):
                 keep = []
                 for x in errs:
                     if "dynamicDataSize" in x and cur["b"]["dds"] == cur["b"]["nv"] and cur["b"]["nv"] > 0:
-                        rep.known_finding(KNOWN_DYN, case[:200])
+                        # input class / symptom of finding C09-bsdyn-datasize
+                        if finding_status(KNOWN_DYN) == "known":
+                            rep.known_finding(KNOWN_DYN, case[:200])
+                        else:
+                            keep.append(x + " (the defect repaired as %s is back)" % KNOWN_DYN)
                     else:
                         keep.append(x)
                 if keep:
